@@ -2,6 +2,8 @@ package main
 
 import (
 	"bufio"
+	"encoding/hex"
+	"encoding/json"
 	"fmt"
 	"sort"
 	"strconv"
@@ -13,7 +15,7 @@ import (
 )
 
 // C01: Cypher→PostgreSQL translation preserves read-query results.
-// Op line:  q <json cypher> <gseed> <nrandom> <exN> <exE>
+// Op line:  q <json cypher> <gseed> <nrandom> <exN> <exE> [p=<hex of the JSON object of query parameters>]
 // Answer:   ok km=(list ("NodeKind1" 1) …) params=<sexp of Result.Parameters> cy=<sexp of the parsed cypher model> sql=<json> stmt=<sexp of Result.Statement>
 //           err <class>
 // The graphs are inputs of the Lean side only (there is no database in the sandbox): the driver evaluates Cy.eval on each graph and
@@ -114,11 +116,19 @@ func (c01Suite) Gen(rng *Rng, tier string, w *bufio.Writer, stats *Stats) {
 		name string
 		qs   []string
 	}{{"suffix", focusedSuffixShapes()}, {"aggregate", focusedAggregateShapes()}, {"agg-traversal", focusedAggTraversalShapes()},
-		{"collect-membership", focusedCollectMembershipShapes()}, {"path-predicate", focusedPathPredicateShapes()}, {"string-literal", focusedStringLiteralShapes()}} {
+		{"collect-membership", focusedCollectMembershipShapes()}, {"path-predicate", focusedPathPredicateShapes()}, {"string-literal", focusedStringLiteralShapes()},
+		{"sort-keyword", focusedSortKeywordShapes()}} {
 		for _, q := range fam.qs {
 			emitFixedSeed("focused:"+fam.name, q)
 			stats.Inc("focused." + fam.name)
 		}
+	}
+	// pattern property maps given as PARAMETERS: the op line carries the parameter values (p=<hex JSON>), the translator gets them, the
+	// reference reads the map they stand for
+	for _, pq := range focusedParamMapShapes() {
+		n++
+		fmt.Fprintf(w, "# case %d focused:param-map\nq %s %d %d %d %d %s\n", n, jsonQuote(pq.q), 7, nrandom, 2, 1, paramsToken(pq.params))
+		stats.Inc("focused.param-map")
 	}
 	for _, c := range LoadCypherCorpus() {
 		if c.Negative || len(c.Params) > 0 {
@@ -211,6 +221,9 @@ func parseC01Op(raw string) (q string, nums []int, ok bool) {
 		return "", nil, false
 	}
 	for _, t := range strings.Fields(rest[end+1:]) {
+		if strings.HasPrefix(t, "p=") {
+			continue // query parameters, see opParams
+		}
 		v, err := strconv.Atoi(t)
 		if err != nil {
 			return "", nil, false
@@ -218,6 +231,59 @@ func parseC01Op(raw string) (q string, nums []int, ok bool) {
 		nums = append(nums, v)
 	}
 	return q, nums, true
+}
+
+// opParams: the query parameters of an op line, given as a trailing token `p=<hex of a JSON object>` (hex: no quotes or spaces, so the
+// positional fields of the line keep their place); integers stay integers.
+func opParams(raw string) map[string]any {
+	for _, t := range strings.Fields(raw) {
+		if !strings.HasPrefix(t, "p=") {
+			continue
+		}
+		b, err := hex.DecodeString(t[2:])
+		if err != nil {
+			return nil
+		}
+		dec := json.NewDecoder(strings.NewReader(string(b)))
+		dec.UseNumber()
+		var m map[string]any
+		if dec.Decode(&m) != nil {
+			return nil
+		}
+		return normParams(m).(map[string]any)
+	}
+	return nil
+}
+
+func normParams(v any) any {
+	switch t := v.(type) {
+	case map[string]any:
+		out := map[string]any{}
+		for k, x := range t {
+			out[k] = normParams(x)
+		}
+		return out
+	case []any:
+		out := make([]any, len(t))
+		for i, x := range t {
+			out[i] = normParams(x)
+		}
+		return out
+	case json.Number:
+		if i, err := t.Int64(); err == nil {
+			return i
+		}
+		f, _ := t.Float64()
+		return f
+	default:
+		return v
+	}
+}
+
+// paramsToken renders query parameters as the op-line token read by opParams.
+func paramsToken(m map[string]any) string {
+	b, _ := json.Marshal(m)
+	return "p=" + hex.EncodeToString(b)
 }
 
 func (r *c01Runner) Step(t []string, raw string) string {
@@ -237,8 +303,9 @@ func (r *c01Runner) Step(t []string, raw string) string {
 		r.stats.Inc("updating")
 		return "err updating-query"
 	}
-	cy := ToSexp(model)
-	res, terr, panicked := translateSafe(model, r.mapper, nil)
+	params := opParams(raw)
+	cy := refSexpP(q, model, params) // sort directions read from the text; parameter property maps read as the literal maps they stand for
+	res, terr, panicked := translateSafe(model, r.mapper, params)
 	if panicked != "" {
 		r.stats.Inc("translate_panic")
 		return "err translate-panic"
